@@ -106,6 +106,13 @@ func (x *Ex) genTables() string {
 
 	// --- embed
 	x.tableVar(f, "internal/extractor/embed", "relevantImageTags", "relevantImageTags")
+	// the regular expressions the hand-written model spells out (Model/Terms, Model/TextRender)
+	x.regexVars(f, "modelledRegexps", [][2]string{
+		{"internal/pagination", "rxNumber"}, {"internal/pagination", "rxTerms"}, {"internal/pagination", "rxSurroundingDigits"},
+		{"internal/pagination", "rxLinkNumberCleaner"},
+		{"internal/domutil", "rxPunctuation"}, {"internal/domutil", "rxTempNewline"}, {"internal/domutil", "rxDisplay"},
+		{"internal/domutil", "rxVisibilityHidden"}, {"internal/domutil", "rxSrcsetURL"},
+	})
 	x.tableVar(f, "internal/extractor/embed", "relevantTwitterTags", "relevantTwitterTags")
 	x.tableVar(f, "internal/extractor/embed", "relevantVimeoTags", "relevantVimeoTags")
 	x.tableVar(f, "internal/extractor/embed", "relevantYouTubeTags", "relevantYouTubeTags")
@@ -125,4 +132,25 @@ func (x *Ex) genTables() string {
 	x.natConst(f, "internal/pagination", "MaxNumForPageParam", "maxNumForPageParam")
 
 	return f.finish()
+}
+
+// regexVars: the source patterns of package-level `regexp.MustCompile` variables, as
+// (package.name, pattern) pairs; "" when the variable is not such a call on one string literal.
+func (x *Ex) regexVars(f *LeanFile, leanName string, vars [][2]string) {
+	var items []string
+	for _, v := range vars {
+		pat := ""
+		if e := x.varValue(v[0], v[1]); e != nil {
+			if call, ok := e.(*ast.CallExpr); ok && x.src(call.Fun) == "regexp.MustCompile" && len(call.Args) == 1 {
+				if s, ok := unquote(call.Args[0]); ok {
+					pat = s
+				}
+			}
+		}
+		if pat == "" {
+			x.fail("regexp %s.%s: not a regexp.MustCompile of one string literal", v[0], v[1])
+		}
+		items = append(items, "("+leanStr(v[0]+"."+v[1])+", "+leanStr(pat)+")")
+	}
+	f.def("package-level regular expressions (source patterns)", "def "+leanName+" : List (String × String) :=\n  ["+strings.Join(items, ",\n   ")+"]")
 }
